@@ -47,6 +47,117 @@ for n in ast.walk(idtree):
 if id_quiet is None:
     die("identifiers.py: `resp.response_code in (requestOutOfRange, subFunctionNotSupported)`")
 
+
+# ---- literal limits of the session check, the reset / wait path and the client loop (AST) ----------------------------
+
+
+def _func(tree, name):
+    for n in ast.walk(tree):
+        if isinstance(n, (ast.FunctionDef, ast.AsyncFunctionDef)) and n.name == name:
+            return n
+    die(f"function {name}")
+
+
+def _num(node):
+    if isinstance(node, ast.Constant) and isinstance(node.value, (int, float)) and not isinstance(node.value, bool):
+        return node.value
+    return None
+
+
+def _kw(call, name):
+    for k in call.keywords:
+        if k.arg == name:
+            return k.value
+    return None
+
+
+def _calls(fn, attr):
+    return [n for n in ast.walk(fn) if isinstance(n, ast.Call) and isinstance(n.func, ast.Attribute) and n.func.attr == attr]
+
+
+def _cfg_calls(fn):
+    return [n for n in ast.walk(fn) if isinstance(n, ast.Call) and isinstance(n.func, ast.Name) and n.func.id == "UDSRequestConfig"]
+
+
+ecu_tree = ast.parse((REPO / "src/gallia/services/uds/ecu.py").read_text())
+client_tree = ast.parse((REPO / "src/gallia/services/uds/core/client.py").read_text())
+
+# ServicesScanner.main: self.ecu.max_retry = <n>
+svc_max_retry = None
+for n in ast.walk(_func(tree, "main")):
+    if isinstance(n, ast.Assign) and isinstance(n.targets[0], ast.Attribute) and n.targets[0].attr == "max_retry":
+        svc_max_retry = _num(n.value)
+if svc_max_retry is None:
+    die("services.py main: `self.ecu.max_retry = <n>`")
+
+# ECU.check_and_set_session(expected_session, retries=<n>): read_session(max_retry=retries), range(retries + 1)
+cas = _func(ecu_tree, "check_and_set_session")
+check_retries = _num(cas.args.defaults[-1]) if cas.args.defaults else None
+if check_retries is None or cas.args.args[-1].arg != "retries":
+    die("ecu.py check_and_set_session: default of `retries`")
+rs_cfgs = [c for c in _cfg_calls(cas) if isinstance(_kw(c, "max_retry"), ast.Name) and _kw(c, "max_retry").id == "retries"]
+if len(rs_cfgs) != 2:
+    die("ecu.py check_and_set_session: two read_session(config=UDSRequestConfig(max_retry=retries))")
+rng = [n for n in ast.walk(cas) if isinstance(n, ast.Call) and isinstance(n.func, ast.Name) and n.func.id == "range"]
+if len(rng) != 1 or not (isinstance(rng[0].args[0], ast.BinOp) and isinstance(rng[0].args[0].op, ast.Add)
+                        and isinstance(rng[0].args[0].left, ast.Name) and rng[0].args[0].left.id == "retries"
+                        and _num(rng[0].args[0].right) is not None):
+    die("ecu.py check_and_set_session: `for i in range(retries + <n>)`")
+check_rounds_extra = _num(rng[0].args[0].right)
+
+# callers: services.py passes no retries, identifiers.py passes retries=<n>; identifier probes use max_retry=<n>
+id_ps = _func(idtree, "perform_scan")
+id_check = [c for c in _calls(id_ps, "check_and_set_session")]
+if len(id_check) != 1 or _num(_kw(id_check[0], "retries")) is None:
+    die("identifiers.py perform_scan: check_and_set_session(session, retries=<n>)")
+id_check_retries = _num(_kw(id_check[0], "retries"))
+svc_check = _calls(_func(tree, "perform_scan"), "check_and_set_session")
+if len(svc_check) != 1 or svc_check[0].keywords or len(svc_check[0].args) != 1:
+    die("services.py perform_scan: check_and_set_session(session)")
+id_probe_cfg = [c for c in _cfg_calls(id_ps) if _kw(c, "max_retry") is not None]
+if len(id_probe_cfg) != 1 or _num(_kw(id_probe_cfg[0], "max_retry")) is None:
+    die("identifiers.py perform_scan: send_raw(config=UDSRequestConfig(..., max_retry=<n>))")
+id_probe_retry = _num(_kw(id_probe_cfg[0], "max_retry"))
+svc_probe_cfg = [c for c in _cfg_calls(_func(tree, "perform_scan")) if _kw(c, "max_retry") is not None]
+if svc_probe_cfg:
+    die("services.py perform_scan: probes are sent with the client's default max_retry")
+
+# ECU.wait_for_ecu(timeout=<s>) -> wait_for(_wait_for_ecu_endless_loop(<sleep>)); ping config timeout=<s>, max_retry=<n>
+wfe = _func(ecu_tree, "wait_for_ecu")
+wait_timeout = _num(wfe.args.defaults[-1]) if wfe.args.defaults else None
+loop_calls = _calls(wfe, "_wait_for_ecu_endless_loop")
+if wait_timeout is None or len(loop_calls) != 1 or _num(loop_calls[0].args[0]) is None:
+    die("ecu.py wait_for_ecu: default timeout and _wait_for_ecu_endless_loop(<sleep>)")
+wait_sleep = _num(loop_calls[0].args[0])
+wfl = _func(ecu_tree, "_wait_for_ecu_endless_loop")
+ping_cfg = _cfg_calls(wfl)
+if len(ping_cfg) != 1 or _num(_kw(ping_cfg[0], "timeout")) is None or _num(_kw(ping_cfg[0], "max_retry")) is None:
+    die("ecu.py _wait_for_ecu_endless_loop: UDSRequestConfig(timeout=<s>, max_retry=<n>, ...)")
+ping_timeout, ping_retry = _num(_kw(ping_cfg[0], "timeout")), _num(_kw(ping_cfg[0], "max_retry"))
+for v in (wait_timeout, wait_sleep, ping_timeout):
+    if (v * 2) != int(v * 2):
+        die("ecu.py wait_for_ecu: a duration that is not a multiple of 0.5 s")
+for c in _calls(_func(svc_tree := tree, "main"), "wait_for_ecu") + _calls(_func(ecu_tree, "leave_session"), "wait_for_ecu"):
+    if c.args or c.keywords:
+        die("wait_for_ecu() is called with the default timeout")
+
+# ECU.leave_session: ecu_reset(<level>), set_session(<level>)
+ls = _func(ecu_tree, "leave_session")
+lr, lset = _calls(ls, "ecu_reset"), _calls(ls, "set_session")
+if len(lr) != 1 or len(lset) != 1 or _num(lr[0].args[0]) is None or _num(lset[0].args[0]) is None:
+    die("ecu.py leave_session: ecu_reset(<level>) and set_session(<level>)")
+leave_reset, leave_session_level = _num(lr[0].args[0]), _num(lset[0].args[0])
+
+# UDSClient.request_unsafe: MAX_N_PENDING
+max_n_pending = None
+for n in ast.walk(_func(client_tree, "request_unsafe")):
+    if isinstance(n, ast.Assign) and isinstance(n.targets[0], ast.Name) and n.targets[0].id == "MAX_N_PENDING":
+        max_n_pending = _num(n.value)
+if max_n_pending is None:
+    die("client.py request_unsafe: MAX_N_PENDING")
+
+from gallia.services.uds.core.constants import DataIdentifier  # noqa: E402
+
 body = f"""namespace Gallia.Gen.C10
 def sns : Nat := {int(UDSErrorCodes.serviceNotSupported)}
 def sfns : Nat := {int(UDSErrorCodes.subFunctionNotSupported)}
@@ -68,6 +179,29 @@ def scanNextLength : List Nat := {lean_nat_list(inlists[1])}
 def identQuiet : List Nat := {lean_nat_list(id_quiet)}
 /-- RoutineControlSubFuncs -/
 def routineSubFuncs : List Nat := {lean_nat_list(sorted(int(x) for x in RoutineControlSubFuncs))}
+/-- UDSErrorCodes.busyRepeatRequest / requestCorrectlyReceivedResponsePending -/
+def brr : Nat := {int(UDSErrorCodes.busyRepeatRequest)}
+def rcrrp : Nat := {int(UDSErrorCodes.requestCorrectlyReceivedResponsePending)}
+/-- client.py request_unsafe: MAX_N_PENDING -/
+def maxNPending : Nat := {int(max_n_pending)}
+/-- services.py main: `self.ecu.max_retry = ...` -/
+def svcMaxRetry : Nat := {int(svc_max_retry)}
+/-- ecu.py check_and_set_session: default `retries` (also the max_retry of its read_session), rounds = retries + ... -/
+def checkRetries : Nat := {int(check_retries)}
+def checkRoundsExtra : Nat := {int(check_rounds_extra)}
+/-- identifiers.py perform_scan: check_and_set_session(session, retries=...), probes with max_retry=... -/
+def idCheckRetries : Nat := {int(id_check_retries)}
+def idProbeRetry : Nat := {int(id_probe_retry)}
+/-- ecu.py wait_for_ecu / _wait_for_ecu_endless_loop, in half seconds -/
+def waitTimeoutHalf : Nat := {int(wait_timeout * 2)}
+def waitSleepHalf : Nat := {int(wait_sleep * 2)}
+def pingTimeoutHalf : Nat := {int(ping_timeout * 2)}
+def pingMaxRetry : Nat := {int(ping_retry)}
+/-- ecu.py leave_session: ecu_reset(...), set_session(...) -/
+def leaveReset : Nat := {int(leave_reset)}
+def leaveSession : Nat := {int(leave_session_level)}
+/-- DataIdentifier.ActiveDiagnosticSessionDataIdentifier -/
+def sessionDid : Nat := {int(DataIdentifier.ActiveDiagnosticSessionDataIdentifier)}
 end Gallia.Gen.C10
 """
 write_lean("C10", body)
